@@ -121,6 +121,21 @@ def discharge(spec, workroot, keep=False, extra_cbmc=None, trace_props=None, sol
     if extra_cbmc:
         cbmc += extra_cbmc
     res["cbmc_cmd"] = ' '.join(cbmc)
+    # memoisation of LONG solver runs only: the verification query (lowered unit generated from the current tree, every shim header,
+    # both tool command lines, tool version) is hashed; an identical query already decided in this sandbox is not solved again.
+    # Extraction, lowering, goto-cc and goto-instrument always run.  VERIF_NOCACHE=1 disables the reuse.
+    ckey = query_key(tu.text(), res["instrument_cmd"], res["cbmc_cmd"])
+    cfile = os.path.join(VERIF, '.work', 'qcache', ckey + '.json')
+    if os.environ.get('VERIF_NOCACHE') != '1' and os.path.exists(cfile):
+        try:
+            c = json.load(open(cfile))
+            res["obligations"] = c["obligations"]
+            res["tool_s"]["cbmc"] = c["cbmc_s"]
+            res["solver_result_reused"] = {"query_sha256": ckey, "decided_at": c["decided_at"], "cbmc_s": c["cbmc_s"]}
+            res["tu_path"] = cpath
+            return res
+        except Exception:
+            pass
     try:
         rc, out, t = run(cbmc, wd, TIMEOUT)
     except ToolError as e:
@@ -180,7 +195,32 @@ def discharge(spec, workroot, keep=False, extra_cbmc=None, trace_props=None, sol
             except OSError:
                 pass
     res["tu_path"] = cpath
+    if res["tool_s"].get("cbmc", 0) >= CACHE_MIN_S and res["status"] == "ok":
+        try:
+            os.makedirs(os.path.dirname(cfile), exist_ok=True)
+            json.dump({"obligations": res["obligations"], "cbmc_s": res["tool_s"]["cbmc"],
+                       "decided_at": time.strftime('%Y-%m-%dT%H:%M:%SZ', time.gmtime())}, open(cfile + '.tmp', 'w'))
+            os.replace(cfile + '.tmp', cfile)
+        except Exception:
+            pass
     return res
+
+
+CACHE_MIN_S = 60
+_tool_version = None
+
+
+def query_key(text, icmd, ccmd):
+    global _tool_version
+    import hashlib
+    if _tool_version is None:
+        _tool_version = subprocess.run(['cbmc', '--version'], stdout=subprocess.PIPE).stdout.decode().strip()
+    h = hashlib.sha256()
+    h.update(text.encode()); h.update(icmd.encode()); h.update(ccmd.encode()); h.update(_tool_version.encode())
+    for fn in sorted(os.listdir(SHIM)):
+        if fn.endswith('.h'):
+            h.update(fn.encode()); h.update(open(os.path.join(SHIM, fn), 'rb').read())
+    return h.hexdigest()
 
 
 def summarize_trace(trace):
